@@ -131,14 +131,19 @@ PROPS = {
         ],
     },
     "C01": {
-        "modules": ["Hannibal.Props.C01", "Hannibal.Props.C01Current", "Hannibal.Props.C01TryForce"],
-        "theorems": ["Hannibal.C01_holds", "Hannibal.C01_current", "Hannibal.monC01_step"],
+        "modules": ["Hannibal.Props.C01", "Hannibal.Props.C01Current", "Hannibal.Props.C01TryForce",
+                    "Hannibal.Props.C01P", "Hannibal.Props.C01PCurrent"],
+        "theorems": ["Hannibal.C01_holds", "Hannibal.C01_current", "Hannibal.monC01_step",
+                     "Hannibal.C01p_holds", "Hannibal.C01p_holds_fresh", "Hannibal.C01p_current"],
         "cases": {"quick": {"C01": 1200, "C11": 600}, "thorough": {"C01": 20000, "x:C01": 320, "C11": 6000, "C12": 3000, "C07": 3000}},
         "assumptions": COMMON_ASSUMPTIONS + [
             "well-formedness hypothesis wf01 (message numbers and operation ids of the trace are fresh) - checked "
             "on every real trace by monWf01 in the same run; without it the model has runs the monitor rejects "
             "(c01ReuseMsg, c01ReuseOp in Props/C01Current.lean)",
             "'completed' = send returned Ok, call/ping returned (Ok or Canceled); a send that failed is not completed",
+            "per-submitter order said of pings, which have no handler callback: monC01p (when a ping returns Ok every "
+            "message acknowledged before it began has been taken out of the mailbox) is theorem C01p_holds_fresh for "
+            "runs with fresh operation ids (witness c01pReuseOp)",
             "multi-actor part of 'from any task' (other actors as submitters) appears as ordinary client operations",
         ],
     },
